@@ -141,7 +141,7 @@ def run(ctx):
     for t in range(per):
         for name in names:
             inst = rules.PUZZLES[name].gen(rng, thorough and rng.random() < 0.25)
-            with ctx.guard(240):
+            with ctx.guard(120):
                 judge(ctx, name, inst)
             if t == 0 and ctx.shard == 0 and name in ("slitherlink", "heyawake"):
                 ctx.sample({"puzzle": name, "instance": inst})
@@ -151,7 +151,7 @@ def run(ctx):
             if r is None:
                 ctx.count("c11.planting_failed")
                 continue
-            with ctx.guard(300):
+            with ctx.guard(90):
                 judge_planted(ctx, name, r[0], r[1])
     msolve.uninstall()
 
